@@ -564,6 +564,38 @@ func runContractV2(s *Session, ops []cop) {
 				e.inc("c17.late-request")
 			}
 			e.inc("c17.op." + op.kind)
+			{
+				// a payment out of the contract as it stands, with one side or the other
+				// possibly short: it happens whole or not at all
+				fc := cur
+				part := func(c types.Currency, r int) types.Currency {
+					switch r % 5 {
+					case 0:
+						return c
+					case 1:
+						return c.Add(types.NewCurrency64(1))
+					case 2:
+						return types.ZeroCurrency
+					}
+					return c.Div64(uint64(2 + r%7))
+				}
+				u := rhp4.Usage{RPC: part(cur.RenterOutput.Value, op.r[4]).Div64(2), Storage: part(cur.RenterOutput.Value, op.r[4]).Sub(part(cur.RenterOutput.Value, op.r[4]).Div64(2)), RiskedCollateral: part(cur.MissedHostValue, op.r[5])}
+				cost, risk := sumBig(u.RPC, u.Storage), bi(u.RiskedCollateral)
+				before := encObj(fc)
+				var perr error
+				if pn := guardPanic(func() { perr = rhp4.PayWithContract(&fc, u) }); pn != "" {
+					bad("constructor-panic", "PayWithContract(%+v): %s", u, pn)
+				} else {
+					checkInsufficient("PayWithContract", cur, cost, risk, perr)
+					if perr != nil && !bytes.Equal(encObj(fc), before) {
+						bad("failed-payment-changed-contract", "PayWithContract refused a usage of %v with %v at risk (renter output %v, missed host value %v: %v) and left the contract changed: renter %v host %v missed %v revision %d", cost, risk, cur.RenterOutput.Value, cur.MissedHostValue, perr, fc.RenterOutput.Value, fc.HostOutput.Value, fc.MissedHostValue, fc.RevisionNumber)
+					} else if perr == nil {
+						checkRevision("PayWithContract", cur, fc, u)
+					} else {
+						e.inc("c17.payment-refused-whole")
+					}
+				}
+			}
 			switch kind {
 			case "form":
 				cp := rhp4.RPCFormContractParams{RenterPublicKey: renter.pk, RenterAddress: renter.addr,
@@ -906,8 +938,14 @@ func runContractV2(s *Session, ops []cop) {
 				// a renter that sends extreme numbers: the host must answer, whatever it answers
 				ext := []types.Currency{types.MaxCurrency, types.MaxCurrency.Sub(types.NewCurrency64(1)), types.NewCurrency(0, 1<<63), types.NewCurrency(^uint64(0), 0), types.ZeroCurrency, types.NewCurrency64(1)}
 				a, cl := ext[op.r[0]%len(ext)], ext[op.r[1]%len(ext)]
-				ph := []uint64{^uint64(0), ^uint64(0) - rhp4.ProofWindow, ^uint64(0) - rhp4.ProofWindow - 1, 0, tip.Height + 30, cur.ProofHeight + 1}[op.r[2]%6]
+				// (proof heights so late that the expiration height, a proof window later, would pass the end of the range)
+				ph := []uint64{^uint64(0), ^uint64(0) - rhp4.ProofWindow, ^uint64(0) - rhp4.ProofWindow - 1, 0, tip.Height + 30, cur.ProofHeight + 1,
+					^uint64(0) - rhp4.ProofWindow + 1, ^uint64(0) - rhp4.ProofWindow/2, ^uint64(0) - rhp4.MinContractDuration, ^uint64(0) - rhp4.MinContractDuration - 1, ^uint64(0) - 1}[op.r[2]%11]
 				fee := []types.Currency{minerFee, types.MaxCurrency, types.ZeroCurrency}[op.r[3]%3]
+				if op.r[2]%11 >= 6 && op.r[5]%2 == 0 {
+					// ... asked for with amounts the parties can fund, so that the answer is about the height
+					a, cl, fee = types.Siacoins(uint32(1+op.r[0]%20)), types.ZeroCurrency, minerFee
+				}
 				ins := chain.ownedBy(renter.addr)
 				var req rhp4.Object
 				var id types.Specifier
